@@ -142,13 +142,15 @@ class TimeMixIn(object):
         if cls._hasSubsecond:
             text += '.%d' % (dt.microsecond // 1000)
 
-        if dt.utcoffset():
-            seconds = dt.utcoffset().seconds
+        offset = dt.utcoffset()
+        if offset:
+            seconds = offset.days * 86400 + offset.seconds
             if seconds < 0:
                 text += '-'
+                seconds = -seconds
             else:
                 text += '+'
-            text += '%.2d%.2d' % (seconds // 3600, seconds % 3600)
+            text += '%.2d%.2d' % (seconds // 3600, seconds % 3600 // 60)
         else:
             text += 'Z'
 
